@@ -680,6 +680,11 @@ def run(ctx, report):
             R10.ok(inst, sample='cond_list[%d] = %s' % (code, names))
 
     # ---------------------------------------------------------------- D9 mandatory prefix of names shared by the mm and the xmm form
+    R14 = report.rule('C02.D14', 'the operand-size vote of asm_candidates, run from the first statement of the method until it has set the mode, on lines with 16-bit / 32-bit general '
+                      'registers, 16-bit memory operands and segment registers (mov Sreg, sldt / str / smsw / lar / lsl): the 0x66 prefix is selected exactly when the general '
+                      'register operand is 16 bits wide', floor=20)
+    size_vote_rule(ctx, R14, X)
+
     R9 = report.rule('C02.D9', 'MMX/SSE mnemonics spelled alike for the mm and the xmm form get the 0x66 prefix exactly when an operand is an xmm register, wherever it stands', floor=100)
     mm_if = None
     for n in walk_no_nested(ac):
@@ -723,6 +728,86 @@ def run(ctx, report):
         else:
             R9.ok(inst, sample='%s: 0x66 iff an operand is xmm, on %d operand shapes' % (nm, len(shapes)), nontrivial=(len(R9.nontrivial) < 120))
 
+
+
+def size_vote_rule(ctx, R, X):
+    """x86_mn.asm_candidates(self, prefix, name, args_eval) is interpreted statement by statement, with the instruction table answered by the row model, until self.mnemo_mode
+    is set; the prefix list and the mode are then read.  IA-32: the operand-size prefix belongs to a line whose general register operand is 16 bits wide; a 16-bit memory operand
+    of the selector instructions and a segment register decide nothing."""
+    from ..consteval import Evaluator, Obj, Native, NotConst, PyRaise, class_obj
+    arch, E, afs = X.arch, X.env, X.afs
+    ac = arch.method('x86_mn', 'asm_candidates')
+    params = [a.arg for a in ac.args.args]
+    if len(params) != 4:
+        raise AnalysisError('x86_mn.asm_candidates has an unexpected signature: %s' % params)
+    log = Obj('log')
+    for k_ in ('debug', 'error', 'info', 'warning', 'warn'):
+        setattr(log, k_, Native(lambda *a: None))
+    base_keys = [E[k] for k in ('w8', 'se', 'sw', 'ww', 'sg', 'dr', 'cr', 'ft', 'w64', 'sd', 'wd', 'bkf', 'spf', 'dtf', 'mmx') if k in E]
+
+    def rows_of(name):
+        out = []
+        for opc, nm, row in X.lookup.get(name, []):
+            c = Obj('row:%s' % name)
+            md = dict((k, None) for k in base_keys)
+            md.update(nm)
+            c.modifs, c.afs, c.name, c.opc, c.rm = md, row.afs, row.name, list(opc), list(row.rm)
+            out.append(c)
+        return out
+    db = Obj('x86mndb')
+    db.find_mnemo = Native(rows_of)
+    scope0 = dict((k_, v_) for k_, v_ in E.items() if isinstance(v_, (str, int, bool, list, tuple, dict)) or v_ is None)
+    for fname_, fnode_ in arch.funcs.items():
+        scope0.setdefault(fname_, fnode_)
+    scope0.update({'log': log, 'x86_afs': afs, 'x86mndb': db})
+    sgbase = E['mask_drcrsg'][E['sg']] if 'mask_drcrsg' in E else 0x400
+
+    def g(n, size):
+        return {n: 1, afs.size: size, afs.ad: False}
+
+    def mem(n, size):
+        return {n: 1, afs.size: size, afs.ad: size}
+    sreg = {sgbase | 3: 1, afs.size: afs.u32, afs.ad: False}
+    u16, u32 = afs.u16, afs.u32
+    lines = [('mov ax, ds', 'mov', [g(0, u16), sreg], True), ('mov eax, ds', 'mov', [g(0, u32), sreg], False), ('mov WORD PTR [ebx], ds', 'mov', [mem(3, u16), sreg], False),
+             ('sldt ax', 'sldt', [g(0, u16)], True), ('sldt eax', 'sldt', [g(0, u32)], False), ('sldt WORD PTR [eax]', 'sldt', [mem(0, u16)], False),
+             ('str bx', 'str', [g(3, u16)], True), ('str ebx', 'str', [g(3, u32)], False), ('smsw cx', 'smsw', [g(1, u16)], True), ('smsw WORD PTR [eax]', 'smsw', [mem(0, u16)], False),
+             ('lar ax, bx', 'lar', [g(0, u16), g(3, u16)], True), ('lar eax, ebx', 'lar', [g(0, u32), g(3, u32)], False), ('lar ax, WORD PTR [ebx]', 'lar', [g(0, u16), mem(3, u16)], True),
+             ('lar eax, WORD PTR [ebx]', 'lar', [g(0, u32), mem(3, u16)], False), ('lsl cx, WORD PTR [ebx]', 'lsl', [g(1, u16), mem(3, u16)], True), ('lsl ecx, ebx', 'lsl', [g(1, u32), g(3, u32)], False),
+             ('add ax, bx', 'add', [g(0, u16), g(3, u16)], True), ('add eax, ebx', 'add', [g(0, u32), g(3, u32)], False), ('add WORD PTR [ebx], ax', 'add', [mem(3, u16), g(0, u16)], True),
+             ('inc WORD PTR [ebx]', 'inc', [mem(3, u16)], True), ('inc DWORD PTR [ebx]', 'inc', [mem(3, u32)], False), ('movzx eax, bx', 'movzx', [g(0, u32), g(3, u16)], False),
+             ('movzx ax, bl', 'movzx', [g(0, u16), g(3, afs.u08)], True), ('out dx, eax', 'out', [g(2, u16), g(0, u32)], False), ('out dx, ax', 'out', [g(2, u16), g(0, u16)], True)]
+    for text, name, ops, want66 in lines:
+        if not X.lookup.get(name):
+            raise AnalysisError('the row model has no mnemonic %r' % name)
+        me = class_obj(arch, 'x86_mn', 'self')
+        pf = []
+        scope = dict(scope0)
+        scope.update({params[0]: me, params[1]: pf, params[2]: name, params[3]: [dict(o) for o in ops]})
+        ev = Evaluator({})
+        ev.env = scope
+        decided = False
+        try:
+            for st in ac.body:
+                ev.exec_stmts([st], scope)
+                if 'mnemo_mode' in me.__dict__.get('_attrs', {}):
+                    decided = True
+                    break
+        except PyRaise as e:
+            R.violation('vote[%s]' % text, 'size-vote:raises:%s' % name, 'asm_candidates raises %s on `%s` before the operand size is decided' % (e.exc_name, text), where(arch, ac))
+            continue
+        except NotConst as e:
+            raise AnalysisError('asm_candidates is outside the evaluable subset before the operand size is decided (`%s`): %s' % (text, e))
+        if not decided:
+            raise AnalysisError('asm_candidates never sets self.mnemo_mode on `%s`' % text)
+        got66 = 0x66 in pf
+        inst = 'vote[%s]' % text
+        if got66 == want66:
+            R.ok(inst, sample='%s: prefixes %s' % (text, ['%#x' % b for b in pf]))
+        else:
+            R.violation(inst, 'size-vote:%s:%s' % (name, 'missing-66' if want66 else 'spurious-66'), '`%s`: asm_candidates decides the %s-bit operand size (prefixes %s); the general register '
+                        'operand makes it a %s-bit instruction' % (text, '16' if got66 else '32', ['%#x' % b for b in pf], '16' if want66 else '32'), where(arch, ac),
+                        witness="asm('sldt ax') == 0f 00 c0 (sldt eax)")
 
 
 def imm_accumulate_rule(R4, att, pa):
@@ -817,6 +902,7 @@ def _conds(node, fn):
 
 
 MUTANTS = [
+    ('mem16-widens-registers', 'miasmx/arch/ia32_arch.py', '                    if is_address(a) and a[x86_afs.size] == u16:\n                        a[x86_afs.size] = u32\n                        a[x86_afs.ad] = u32\n', '                    if a[x86_afs.size] == u16:\n                        a[x86_afs.size] = u32\n                        if a[x86_afs.ad]:\n                            a[x86_afs.ad] = u32\n', 'C02.D14'),
     ('condlist-alias-swapped', 'miasmx/arch/ia32_arch.py', '             ["nge","l"],\n             ["nl","ge"],\n             ["ng","le"],', '             ["ng","l"],\n             ["nl","ge"],\n             ["nge","le"],', 'C02.D10'),
     ('in-al-dx-66', 'miasmx/arch/ia32_arch.py', "                if name in ['in', 'out'] and \\\n                        dict([_ for _ in a.items() if _[0] != 'txt']) == r_dx:\n                    # neither does the port register of in/out (always dx)\n                    continue\n", "", 'C02.D3'),
     ('asm-offers-undefined-sse', 'miasmx/arch/ia32_arch.py', "        candidate = [c for c in candidate\n                     if not (c.modifs[mmx] and mmx_undefined_form(c, prefix))]\n", "", 'C02.D8'),
